@@ -34,7 +34,9 @@ import (
 	"k8s.io/klog/v2"
 )
 
-var errRetry = errors.New("retry")
+// errRetry tells backoff.Retry to try again; it must be a backoff.RetriableError,
+// any other error value makes Retry return immediately.
+var errRetry = backoff.RetriableError("retry")
 
 // PreorderedLogClient is a means of communicating with a single Trillian
 // pre-ordered log tree.
